@@ -154,6 +154,9 @@ def legal(rc):
                 elif isinstance(inner, (ast.GeneratorExp, ast.ListComp)) and len(inner.generators) == 1 and not inner.generators[0].ifs:
                     var = dotted(inner.generators[0].target)
                     test, src = inner.elt, inner.generators[0].iter
+                if src is not None and isinstance(src, ast.Call) and call_name(src) == "all_simple_paths" and (len(src.args) > 3 or kwarg(src, "cutoff") is not None):
+                    # a bounded path search does not decide "there is another directed path"
+                    return A(("?bounded-path-search", norm(src, 80)))
                 if src is not None and isinstance(src, ast.Call) and call_name(src) == "all_simple_paths" and len(src.args) >= 3 \
                         and dotted(src.args[0]) == model and isinstance(test, ast.Compare) and len(test.ops) == 1 \
                         and isinstance(test.left, ast.Call) and call_name(test.left) == "len" and dotted(test.left.args[0]) == var \
@@ -662,6 +665,8 @@ def defuse(rc):
     _sh.defuse_rule(rc, _sh.anchor_files("C11"))
 
 MUTANTS = [
+    dict(kind="break", name="flip-cycle-test-bounded-path-search", file=HC, expect="C11.legal",
+         old="map(lambda path: len(path) > 2, nx.all_simple_paths(model, X, Y))", new="map(lambda path: len(path) > 2, nx.all_simple_paths(model, X, Y, cutoff=2))"),
     dict(kind="break", name="add-no-cycle-check", file=HC, expect="C11.legal",
          old="if not nx.has_path(model, Y, X):", new="if not nx.has_path(model, X, Y):"),
     dict(kind="break", name="add-ignores-blacklist", file=HC, expect="C11.legal",
